@@ -579,13 +579,13 @@ func checkConsensusRounds(c *lib.Ctx, s *spec, w *world, op string) {
 }
 
 // do runs one generated spec through the correspondence and the oracle.
-func do(c *lib.Ctx, s *spec) {
+func do(c *lib.Ctx, s *spec) *world {
 	op := s.op()
 	if ans, handled := guarded(c, op); handled {
 		if ans != "" {
 			c.Emit(op, ans)
 		}
-		return
+		return nil
 	}
 	var w *world
 	var p any
@@ -600,6 +600,10 @@ func do(c *lib.Ctx, s *spec) {
 	if w != nil {
 		checkRun(c, s, w, p, op)
 	}
+	if p != nil {
+		return nil
+	}
+	return w
 }
 
 // oracleOnly runs a spec whose outcome is a scheduler race in the real code (delay = timeout,
@@ -1121,6 +1125,71 @@ func gen(c *lib.Ctx) {
 		countCfg(c, s)
 		c.Count("stream:history")
 		do(c, s)
+	}
+
+
+	// ---- stale entries of the reused result slices (Props/C01.lean, "Stale entries"): pairs of
+	// histories that end in the same round but differ before. A source that fails in the last
+	// round keeps voting with what an earlier round left in its slot, so the last corrections may
+	// differ (counted) — the generic oracle bounds both. When EVERY source answers in time in the
+	// last round nothing of the earlier rounds is left: the last corrections must be equal
+	// (`C01:stale-leak`, a metamorphic oracle that needs no model).
+	c.Comment("stale pairs")
+	const dfl = "3ff4000000000000 4004000000000000 50000 500000000 1000000000 10000 2 0 "
+	for _, h := range []struct {
+		rounds string
+		want   []int64
+	}{{"o0,o0/- o4000,e/-", []int64{0, 2000}}, {"o12000,o12000/- o4000,e/-", []int64{12000, 8000}}} {
+		s := parseSpec(strings.Fields(dfl + h.rounds))
+		if w := do(c, s); w != nil && lib.IntList(w.corrs) != lib.IntList(h.want) {
+			c.Fail("C01:stale-corpus", "the decided two-round history of C01_stale_entry_changes_correction gives other corrections",
+				[]string{s.op()}, map[string]any{"got": w.corrs, "want": h.want})
+		}
+		c.Count("stale:corpus")
+	}
+	sp := r.Fork("stale")
+	for i := 0; i < c.Scale(150, 3000); i++ {
+		a := validCfg(sp)
+		a.nref, a.npeer = int(sp.Range(0, 5)), int(sp.Range(0, 5))
+		if a.nref == 0 && a.npeer == 0 {
+			a.nref = 1
+		}
+		b := *a
+		genRounds(c, sp, a, int(sp.Range(1, 5)))
+		b.rounds = nil
+		genRounds(c, sp, &b, int(sp.Range(1, 5)))
+		all := sp.Chance(60)
+		last := *a
+		last.rounds = nil
+		genRounds(c, sp, &last, 1)
+		rd := last.rounds[0]
+		if all {
+			pool := offsetPool(a)
+			mp := f2i(a.pi * float64(a.drift))
+			for side := 0; side < 2; side++ {
+				for j := range rd[side] {
+					rd[side][j] = act{kind: 'o', off: genOffset(sp, pool, mp), delay: inTimeDelay(sp, a)}
+				}
+			}
+		}
+		a.rounds = append(a.rounds, rd)
+		b.rounds = append(b.rounds, rd)
+		wa, wb := do(c, a), do(c, &b)
+		if wa == nil || wb == nil || len(wa.corrs) != len(a.rounds) || len(wb.corrs) != len(b.rounds) {
+			continue
+		}
+		la, lb := wa.corrs[len(wa.corrs)-1], wb.corrs[len(wb.corrs)-1]
+		switch {
+		case all && la != lb:
+			c.Fail("C01:stale-leak", "every source answered in time in the last round, yet the correction depends on earlier rounds",
+				[]string{a.op(), b.op()}, map[string]any{"corr_a": la, "corr_b": lb})
+		case all:
+			c.Count("stale:all-answer:last-corrections-equal")
+		case la != lb:
+			c.Count("stale:failing-sources:earlier-rounds-changed-the-correction")
+		default:
+			c.Count("stale:failing-sources:same-correction")
+		}
 	}
 
 	// ---- scheduler races of the real code (delay = timeout; timeout = 0): direct oracle only
